@@ -81,6 +81,9 @@ SPACE = {
     # another mode's section (which must never take effect)
     "ch_defines": [0, 1, 2, 3],
     "ch_flags": [0, 1, 2, 3],
+    # how the source text reaches the build: buildKernelFromString, or buildKernel on a file that the building process
+    # (re)writes in place right before the build (the text is the input, the channel is not)
+    "kind": ["string", "file"],
 }
 FLAG_PROPS = ["compiler_flags", "compiler_linker_flags", "compiler_shared_flags"]
 KEYS = sorted(SPACE)
@@ -104,7 +107,7 @@ def effective_key(cfg, env=None):
     else:
         c["okl_inc"] = 0
     # the channel through which a value arrives is not a build input, the value is
-    c["ch_defines"] = c["ch_flags"] = 0
+    c["ch_defines"] = c["ch_flags"] = c["kind"] = 0
     # a linker-flags property is overridden by OCCA_LDFLAGS when the (fixed) environment sets it
     if env and "OCCA_LDFLAGS" in env:
         c["compiler_linker_flags"] = 0
@@ -143,6 +146,10 @@ def job_spec(cfg, sb_proj, mode="Serial"):
     place(v["ch_flags"], "compiler_flags", v["compiler_flags"], FLAG_POOL[(cfg["compiler_flags"] + 1) % len(FLAG_POOL)])
     job = {"kind": "string", "kernel": "k", "n": N, "source": KERNEL % {"src": v["src"]},
            "props": props, "fnvariant": v["functions"]}
+    if v["kind"] == "file":
+        path = os.path.join(sb_proj, "k06.okl")
+        job = {"kind": "file", "kernel": "k", "n": N, "file": path, "prewrite": {path: KERNEL % {"src": v["src"]}},
+               "props": props, "fnvariant": v["functions"]}
     return job, dev
 
 
@@ -163,12 +170,20 @@ def gen(seed, index):
         if r.random() < 0.25:
             base[k] = r.randrange(len(SPACE[k]))
     hist = [dict(base)]
-    fam = r.choice(["single", "swap", "equal", "mixed", "mixed"])
+    fam = r.choice(["single", "swap", "equal", "mixed", "mixed", "rewrite"])
+    if fam == "rewrite":
+        # one kernel file rewritten in place with texts of equal length, the builds before and after a rewrite in one process
+        base["kind"] = 1
+        hist = [dict(base)]
     nb = r.randint(5, 9)
     while len(hist) < nb:
         c = dict(r.choice(hist))
         kind = fam if fam != "mixed" else r.choice(["single", "swap", "equal", "single"])
-        if kind == "single":
+        if kind == "rewrite":
+            c = dict(hist[-1])
+            k = "src" if r.random() < 0.75 else r.choice(["defines", "compiler_flags", "headers"])
+            c[k] = (c[k] + 1) % len(SPACE[k])
+        elif kind == "single":
             k = r.choice(KEYS)
             c[k] = (c[k] + r.randint(1, len(SPACE[k]) - 1)) % len(SPACE[k])
         elif kind == "swap":
@@ -184,7 +199,10 @@ def gen(seed, index):
     # repeats of earlier configurations
     for _ in range(r.randint(1, 3)):
         hist.insert(r.randint(1, len(hist)), dict(r.choice(hist)))
-    return {"seed": seed, "mode": r.choice(["Serial", "Serial", "OpenMP"]), "history": hist, "env": r.choice(ENVS)}
+    scn = {"seed": seed, "mode": r.choice(["Serial", "Serial", "OpenMP"]), "history": hist, "env": r.choice(ENVS)}
+    # builds per simulated process: 1 = a fresh process per build; k > 1 = up to k consecutive builds share one process
+    scn["inproc"] = r.choice([1, 1, 1, 2, 3]) if fam != "rewrite" else r.choice([2, 3, 4])
+    return scn
 
 
 _ref_cache = {}
@@ -224,19 +242,33 @@ def execute(scn, sb):
     by_binary = {}     # binary -> (effective key, index)
     logs = []
     builds = []
-    for i, cfg in enumerate(hist):
-        g = ps.run_group(sb, seed, [vspec(mode, cfg, sb, env)], strategy=("rtb", 0, 1), clock0=steps * 10 ** 6)
+    inproc = max(1, scn.get("inproc", 1))
+    results = []       # per build: (output line, vproc result, compiles or None)
+    for g0 in range(0, len(hist), inproc):
+        group = hist[g0:g0 + inproc]
+        jobs = []
+        for cfg in group:
+            job, dev = job_spec(cfg, sb.proj, mode)
+            if len(group) > 1:
+                job["device"] = dev
+            jobs.append((job, dev))
+        vp = ps.VProcSpec({"mode": mode, "device": jobs[0][1] if len(group) == 1 else {}, "jobs": [j[0] for j in jobs]}, env=dict(env))
+        g = ps.run_group(sb, seed, [vp], strategy=("rtb", 0, 1), clock0=steps * 10 ** 6)
         steps += g.gsteps
         logs += g.log
-        o = g.outputs[0][0] if g.outputs[0] else {"status": "none"}
+        by = {o.get("job"): o for o in g.outputs[0]}
+        for j in range(len(group)):
+            results.append((by.get(j, by.get(-1, {"status": "none"})), g.vp[0], g.vp[0]["compiles"] if len(group) == 1 else None))
+    for i, cfg in enumerate(hist):
+        o, vpres, compiles = results[i]
         ref = refs[i]
         ek = effective_key(cfg, env)
-        builds.append({"cfg": cfg_key(cfg), "status": o.get("status"), "out": o.get("out"), "compiles": g.vp[0]["compiles"]})
+        builds.append({"cfg": cfg_key(cfg), "status": o.get("status"), "out": o.get("out"), "compiles": compiles})
         if ref["status"] != "ok" or ref["sig"]:
             # the configuration does not even build on an empty cache: not a C06 matter, skip it
             continue
-        if g.vp[0]["sig"]:
-            violations.append(["crash", "build %d (%s) died with signal %d" % (i, cfg_key(cfg), g.vp[0]["sig"])])
+        if vpres["sig"] and o.get("status") in (None, "none"):
+            violations.append(["crash", "build %d (%s) died with signal %d" % (i, cfg_key(cfg), vpres["sig"])])
             continue
         if o.get("status") != "ok":
             violations.append(["exception", "build %d (%s) fails on the shared cache but succeeds on an empty one: %s" %
@@ -257,8 +289,8 @@ def execute(scn, sb):
             h0, b0, i0 = seen[ck]
             if o.get("hash") != h0 or b != b0:
                 violations.append(["unstable-key", "build %d repeats the configuration of build %d but resolved to another entry" % (i, i0)])
-            elif g.vp[0]["compiles"] != 0:
-                violations.append(["recompiled", "build %d repeats build %d but ran the compiler %d time(s)" % (i, i0, g.vp[0]["compiles"])])
+            elif compiles:
+                violations.append(["recompiled", "build %d repeats build %d but ran the compiler %d time(s)" % (i, i0, compiles)])
         else:
             seen[ck] = (o.get("hash"), b, i)
         by_binary.setdefault(b, (ek, i))
@@ -268,7 +300,7 @@ def execute(scn, sb):
         "log_hash": ps.log_hash(logs),
         "steps": steps, "sim_ns": steps * 10 ** 6,
         "nontrivial": distinct_cfgs >= 2,
-        "distinct_key": hashlib.sha256((mode + json.dumps([cfg_key(c) for c in hist]) + json.dumps(env, sort_keys=True)).encode()).hexdigest()[:16],
+        "distinct_key": hashlib.sha256((mode + json.dumps([cfg_key(c) for c in hist]) + json.dumps(env, sort_keys=True) + str(inproc)).encode()).hexdigest()[:16],
         "probes": {"builds": len(hist), "distinct_configurations_in_history": distinct_cfgs,
                    "repeated_configurations": len(hist) - len(set(cfg_key(c) for c in hist))},
         "states": [hashlib.sha256(json.dumps(sb.tree_state()).encode()).hexdigest()[:12]],
@@ -301,7 +333,8 @@ def signature(scn, out):
                 vals.append(k)
         props = "+".join(vals)
     envs = ",".join(sorted((scn.get("env") or {}).keys()))
-    return "%s|%s|differ=%s%s" % (PROP, v[0], props, ("|env=" + envs) if envs else "")
+    return "%s|%s|differ=%s%s%s" % (PROP, v[0], props, ("|env=" + envs) if envs else "",
+                                    "|several-builds-in-one-process" if scn.get("inproc", 1) > 1 else "")
 
 
 def minimise(ex, scn, out, cls):
@@ -317,6 +350,10 @@ def minimise(ex, scn, out, cls):
         return fails(dict(scn, history=sub))[0]
     hist = common.ddmin(hist, fails_hist, max_tests=40)
     cur = dict(scn, history=hist)
+    if cur.get("inproc", 1) > 1:
+        ok, _ = fails(dict(cur, inproc=1))
+        if ok:
+            cur["inproc"] = 1
     if cur["mode"] != "Serial":
         ok, _ = fails(dict(cur, mode="Serial"))
         if ok:
@@ -338,7 +375,7 @@ def main(tier):
     ps.ensure_engine()
     ex = pscheck.Explorer(PROP, tier, "exploration", gen, execute, signature, minimise)
     ex.max_minimise = 10
-    ex.report.rule = ("one run = a seeded history of 6-12 builds (each a fresh simulated process) on one cache directory, drawn from "
+    ex.report.rule = ("one run = a seeded history of 6-12 builds (each a fresh simulated process, or 2-3 consecutive builds per process) on one cache directory, drawn from "
                       "families: single-property variations, value swaps between the three flag properties, equal values in two "
                       "properties, repeats; oracle = isolated empty-cache build of the same configuration + distinct configurations "
                       "never share an entry + repeats hit the cache; non-trivial = history holds >= 2 distinct configurations; "
